@@ -30,15 +30,17 @@ CONSTANTS Threads, Progs,        \* Progs: set of candidate program assignments 
 DocIds == {"plain", "colA", "colB", "multi", "fig", "fail", "share2", "share3", "paged", "pagedfn", "pagedhdr", "multi13",
            \* a 1x1 table on the shared RTFBody(); two tables sharing RTFBody(col_rel_width=[1]); coloured borders only /
            \* coloured borders after another colour; a border matrix with the shape of a page; same paper, other margins
-           "share1", "sharew2", "sharew3", "brdA", "brdB", "cyc", "pagedm1", "pagedm2"}
+           "share1", "sharew2", "sharew3", "brdA", "brdB", "cyc", "pagedm1", "pagedm2",
+           \* two documents on one caller-owned RTFPage; the second is multi-section and fails in its second section
+           "pgshare", "pgfail"}
 Pal(dd) == CASE dd = "colA" -> {26, 552} [] dd = "colB" -> {100, 300, 652} [] dd = "multi" -> {26, 100}
             [] dd = "fig" -> {552} [] dd = "fail" -> {300} [] dd = "paged" -> {26, 552}
             [] dd = "brdA" -> {552} [] dd = "brdB" -> {26, 552} [] OTHER -> {}
 Uses(dd) == CASE dd = "colA" -> <<552, 26, 552>> [] dd = "colB" -> <<652, 100, 300>> [] dd = "multi" -> <<100, 26>>
              [] dd = "fig" -> <<552>> [] dd = "fail" -> <<300>> [] dd = "paged" -> <<26, 552, 26, 552>>
              [] dd = "brdA" -> <<552, 552>> [] dd = "brdB" -> <<26, 552, 552>> [] OTHER -> <<>>
-Path(dd) == CASE dd \in {"multi", "multi13"} -> "multi" [] dd = "fig" -> "figure" [] OTHER -> "single"
-Fails(dd) == dd = "fail"
+Path(dd) == CASE dd \in {"multi", "multi13", "pgfail"} -> "multi" [] dd = "fig" -> "figure" [] OTHER -> "single"
+Fails(dd) == dd \in {"fail", "pgfail"}
 NCols(dd) == CASE dd \in {"share2", "sharew2"} -> 2 [] dd \in {"share3", "sharew3"} -> 3 [] dd = "share1" -> 1 [] OTHER -> 0
 \* two caller-owned RTFBody objects are shared between documents: "b" = RTFBody(), "w" = RTFBody(col_rel_width=[1])
 Fam(dd) == CASE dd \in {"share1", "share2", "share3"} -> "b" [] dd \in {"sharew2", "sharew3"} -> "w" [] OTHER -> "none"
